@@ -79,6 +79,23 @@ Definition clause_obligation (c : cfg) (evs : list event) (o : obs) : bool :=
     (match w with [] => false | _ => true end) && closed
   else true.
 
+(* the request timeout elapsed (an ETimer in the schedule = REQUEST_TIMEOUT after the connection was made) while the client
+   had not yet delivered a complete request: "stalled past the request timeout".  Unlike timer_fired_armed this does not
+   rely on what the implementation reports about its own timer. *)
+Fixpoint stalled_past_timeout (c : cfg) (evs : list event) (seen : str) : bool :=
+  match evs with
+  | [] => false
+  | ERead sl :: r => stalled_past_timeout c r (seen ++ concat sl)
+  | ETimer :: r => negb (request_complete c seen) || stalled_past_timeout c r seen
+  | _ :: r => stalled_past_timeout c r seen
+  end.
+Definition clause_timeout_obligation (c : cfg) (evs : list event) (o : obs) : bool :=
+  if has_lost evs then true
+  else if stalled_past_timeout c evs [] && quiescent evs o then
+    let (w, closed) := wire (flat o) in
+    (match w with [] => false | _ => true end) && closed
+  else true.
+
 (* (d) silence after connection_lost *)
 Fixpoint clause_silent_after_lost (evs : list event) (o : obs) (lost : bool) : bool :=
   match evs, o with
@@ -91,6 +108,6 @@ Fixpoint clause_silent_after_lost (evs : list event) (o : obs) (lost : bool) : b
 
 Definition ok (c : cfg) (evs : list event) (o : obs) : bool :=
   clause_shape o && clause_faithful c evs o && clause_single o &&
-  clause_obligation c evs o && clause_silent_after_lost evs o false.
+  clause_obligation c evs o && clause_timeout_obligation c evs o && clause_silent_after_lost evs o false.
 End WithOracle.
 Close Scope N_scope.
